@@ -4,6 +4,7 @@
 -/
 import GruleModel.Codec
 import GruleModel.Syntax.Build
+import GruleModel.Json.Sem
 import GruleModel.Gen.ArithTables
 import GruleModel.Catalog
 open Lean Grule Grule.Codec
@@ -149,6 +150,48 @@ partial def binopOperand (j : Json) : P Val := do
     | .leaf v => pure v
     | _ => throw "binop operand"
 
+-- JSON rule documents (pkg/JsonResource.go): the decoding step of encoding/json into GruleJSON ------------------
+
+partial def toJ (j : Json) : Grule.Json.J :=
+  match j with
+  | .null => .null
+  | .bool b => .bool b
+  | .num n =>
+    let neg := n.mantissa < 0
+    let m := n.mantissa.natAbs
+    let bits := (Syntax.ratToF64 m (10 ^ n.exponent)).getD 0x7FF0000000000000
+    .num (Syntax.withSign neg bits)
+  | .str s => .str s.toList
+  | .arr a => .arr (a.toList.foldr (fun x acc => .cons (toJ x) acc) .nil)
+  | .obj kvs => .obj (kvs.toList.foldr (fun (k, v) acc => .cons k.toList (toJ v) acc) .nil)
+
+/-- json.Unmarshal into a GruleJSON struct; `none` = an unmarshal error -/
+def ruleJOf (j : Json) : Option Grule.Json.RuleJ :=
+  match j with
+  | .obj _ =>
+    let strF (k : String) : Option (List Char) := match j.getObjVal? k with
+      | .ok (.str s) => some s.toList
+      | .ok .null => some []
+      | .ok _ => none
+      | .error _ => some []
+    let sal : Option Int := match j.getObjVal? "salience" with
+      | .ok (.num n) => if n.exponent == 0 then some n.mantissa else none
+      | .ok .null => some 0
+      | .ok _ => none
+      | .error _ => some 0
+    let thn : Option (Option Grule.Json.JL) := match j.getObjVal? "then" with
+      | .ok (.arr a) => some (some (a.toList.foldr (fun x acc => .cons (toJ x) acc) .nil))
+      | .ok .null => some none
+      | .ok _ => none
+      | .error _ => some none
+    let whn : Grule.Json.J := match j.getObjVal? "when" with
+      | .ok v => toJ v
+      | .error _ => .null
+    match strF "name", strF "desc", sal, thn with
+    | some name, some desc, some salience, some then_ => some { name, desc, salience, when := whn, then_ }
+    | _, _, _, _ => none
+  | _ => none
+
 def doOp (w : World) (op : Json) : P (World × Json) := do
   let get := fun (k : String) => match fieldOpt op k with
     | some (.str s) => s
@@ -194,6 +237,41 @@ def doOp (w : World) (op : Json) : P (World × Json) := do
         (if fieldOpt op "wm" == some (.bool true) then
           [("wm", wmJ (kb'.wm.restrict (kb'.entries.filter (fun e => !e.deleted))))] else [])
       pure ({ w with kbs := assocSet kbKey kb' w.kbs }, Json.mkObj res)
+  | "jsonbuild" =>
+    let kb := w.kb kbKey kbName ver
+    let w0 := { w with kbs := assocSet kbKey kb w.kbs }
+    let fail (why : String) : P (World × Json) :=
+      pure (w0, Json.mkObj [("tok", .bool false), ("ok", .bool false), ("rules", rulesJ kb.entries), ("why", jstr why)])
+    let doc := get "json"
+    let first := doc.toList.dropWhile (fun c => c == ' ' || c == '\t' || c == '\r' || c == '\n')
+    match first.head?, Json.parse doc with
+    | none, _ => fail "blank"
+    | _, .error _ => fail "not JSON"
+    | some c, .ok j =>
+      let rjs : Option (List Grule.Json.RuleJ) :=
+        if c == '[' then (match j with | .arr a => a.toList.mapM ruleJOf | _ => none)
+        else if c == '{' then (ruleJOf j).map (fun r => [r])
+        else none
+      match rjs with
+      | none => fail "unmarshal"
+      | some rs =>
+        match Grule.Json.parseRuleset rs with
+        | .error (.unmodelled m) => pure (w0, Json.mkObj [("out", jstr ("unmodelled: " ++ m))])
+        | .error (.invalid m) => fail m
+        | .ok text =>
+          let fo := Syntax.front text
+          if fo.verdict == .unmodelled then pure (w0, Json.mkObj [("out", jstr "unmodelled: byte escape")]) else
+          let (kb', errs) := kb.buildText text
+          let sems := rs.map Grule.Json.semRule
+          let semOk := sems.all (fun r => match r with | .ok _ => true | .error _ => false)
+          let semRules := sems.filterMap (fun r => match r with | .ok x => some x | .error _ => none)
+          let astEq := semOk && fo.verdict == .accepted &&
+            semRules.map (fun r => snapRule (Grule.Json.eraseRule r)) == fo.rules.map (fun r => snapRule (Grule.Json.eraseRule r))
+          let res := [("tok", Json.bool true), ("text", jstr (String.ofList text)), ("ok", Json.bool (errs == 0)), ("rules", rulesJ kb'.entries),
+            ("verdict", jstr (reprStr fo.verdict)), ("semOk", Json.bool semOk), ("astEq", Json.bool astEq),
+            ("semText", jstr (String.ofList (semRules.flatMap Grule.Json.printRule))),
+            ("semDescs", .arr (semRules.map (fun r => jstr r.desc)).toArray)]
+          pure ({ w with kbs := assocSet kbKey kb' w.kbs }, Json.mkObj res)
   | "inst" =>
     match assocGet kbKey w.kbs with
     | none => pure (w, Json.mkObj [("ok", .bool false)])
